@@ -44,7 +44,7 @@ RULE = ('a case is one HISTORY: a store of 2..6 small Frames (9 kinds: string/in
         'class) and bus.status["loaded"] are compared with M and with S evaluated in Coq on the same history. Strata: exhaustive (all '
         'histories of length 3 x max_persist None,1,2 quick / length 4 x None,1,2,3 thorough, over a fixed 10-operation alphabet on 3 labels), '
         'random (online generation from the current labels incl. derived Buses, get/iter_element/sort_values and per-label configurations '
-        'with any max_persist), stale (file touched/rewritten/deleted at every point), malformed keys, kernel (private _loaded/_last_accessed '
+        'with any max_persist), stale (file touched / replaced by a file with OTHER Frames under the same labels / deleted at every point, the new mtime both newer and OLDER than the recorded one), wide-slice (5..7 labels, max_persist 2..3: one or two single loads, then iloc[a:b] / loc[x:y] / head / tail needing more loads than max_persist, then every label read back, the still-loaded ones first; all 5104 shapes thorough, 240 sampled quick, two thirds of them shapes where a loaded Frame is evicted and re-instated mid-call), malformed keys, kernel (private _loaded/_last_accessed '
         'and the read calls reaching the store), Bus._store_reader against a stub, write/reopen round trip with full Frame literals, one '
         'regression stratum per repaired defect (the former witness inputs, specification = the correct behaviour). Non-trivial: max_persist '
         'active or the stale file actually refused a read; distinct = distinct (store, max_persist, history).')
@@ -1333,7 +1333,8 @@ def regression_cases(ctx, work):
 def wide_slice_cases(ctx, work):
     """5..7 labels, max_persist 2..3: load one or two single labels, then a slice selection (iloc[a:b], loc[x:y], head, tail)
     that needs more loads than max_persist -- so Frames loaded at the start of the call are evicted and re-instated while
-    the reader is consumed in batches -- then read EVERY label: each must return its own Frame."""
+    the reader is consumed in batches -- then read EVERY label, the ones the call left loaded FIRST (most recent first: pure
+    hits, nothing is evicted before it has been looked at): each must return its own Frame."""
     rng = ctx.rng
     acc = lambda l: ('sel', 'getitem', ('label', l), False)
     combos = []
@@ -1348,9 +1349,38 @@ def wide_slice_cases(ctx, work):
             for pre in pres:
                 for sl in slices:
                     combos.append((n, mp, pre, sl))
+    def span(n, sl):
+        if sl[0] == 'head':
+            return 0, min(sl[1], n)
+        if sl[0] == 'tail':
+            return max(0, n - sl[1]), n
+        kind, v = sl[2]
+        if kind == 'lslice':
+            return _rank(v[0]), _rank(v[1]) + 1
+        if v[2] is None:
+            return v[0], v[1]
+        return None
+
+    def evicts_and_reinstates(c):
+        # a Frame already loaded sits after at least max_persist deferred labels of the slice and a deferred label follows it
+        n, mp, pre, sl = c
+        sp = span(n, sl)
+        loaded = [_rank(l) for l in pre[-mp:]]
+        if sp is None:
+            return False
+        for r, p in enumerate(loaded):
+            d = p - sp[0] - sum(1 for q in loaded if sp[0] <= q < p)      # deferred labels of the slice before p
+            # p is scanned by a batch that started before the loop reached it, after it was evicted, and a deferred label follows
+            if sp[0] <= p < sp[1] - 1 and d % mp != 0 and (d // mp) * mp >= mp - len(loaded) + 1 + r:
+                return True
+        return False
     take = ctx.n(240, 6000)
     if take < len(combos):
-        combos = rng.sample(combos, take)
+        hot = [c for c in combos if evicts_and_reinstates(c)]
+        cold = [c for c in combos if not evicts_and_reinstates(c)]
+        k = min(len(hot), (2 * take) // 3)
+        combos = rng.sample(hot, k) + rng.sample(cold, take - k)
+    ctx.count(*(['wide-slice:evicts-and-reinstates'] * sum(1 for c in combos if evicts_and_reinstates(c))))
     envs = {}
     for j, (n, mp, pre, sl) in enumerate(combos):
         fmt = FORMATS[j % len(FORMATS)]
@@ -1360,9 +1390,16 @@ def wide_slice_cases(ctx, work):
         env = envs[(n, fmt)]
         into = rng.random() < .25                       # sometimes go on reading from the derived Bus instead
         sl2 = sl[:-1] + (into,)
-        ops = [acc(l) for l in pre] + [sl2, ('iter_element',) if into else ('status',)] + [acc(l) for l in env.order if not into]
-        if into:
-            ops.append(('values',))
+        if sl[0] == 'head':
+            picked = env.order[:sl[1]]
+        elif sl[0] == 'tail':
+            picked = env.order[-sl[1]:]
+        elif sl[2][0] == 'lslice':
+            picked = env.order[_rank(sl[2][1][0]):_rank(sl[2][1][1]) + 1]
+        else:
+            picked = env.order[slice(*sl[2][1])]
+        rest = [] if into else [l for l in env.order if l not in picked]
+        ops = [acc(l) for l in pre] + [sl2, ('status',)] + [acc(l) for l in reversed(picked)] + [acc(l) for l in rest] + [('values',)]
         ops, trace = run_history(env, mp, ops, kernel=(j % 2 == 0))
         ctx.count(f'wide-slice:n={n}', f'wide-slice:mp={mp}', f'wide-slice:{sl[0] if sl[0] != "sel" else sl[2][0]}', f'wide-slice:preloaded={len(pre)}')
         yield history_case('api:wide-slice', env, mp, ops, trace, kernel=(j % 2 == 0),
